@@ -290,6 +290,31 @@ def execute(ctx, case: dict) -> None:
                    nontrivial=n_sets >= 2, sample=case if n_sets >= 3 else None,
                    n=max(1, STATS["ipnets"] - before))
 
+    elif kind == "grouplimit":
+        # the limit configured on a group address holds for its members, however they are handed over
+        lim, k = case["L"], case["kk"]
+        member = _line(0x0A000000, _mask_with_bits(k))
+        try:
+            if case["how"] == "ctor-strings":
+                Address("object-group G", items=["host 10.9.9.9", member], max_ncwb=lim)
+            elif case["how"] == "ctor-single-string":
+                Address("object-group G", items=member, max_ncwb=lim)
+            else:
+                addr = Address("object-group G", items=["host 10.9.9.9"], max_ncwb=lim)
+                addr.items = ["host 10.9.9.8", member]
+        except NetmaskValueError:
+            ctx.count("limit_rejections_judged")
+            if k <= lim:
+                ctx.violation(case, "a group member within the group's limit was rejected", f"k={k} limit={lim}")
+        except Exception as ex:  # pylint: disable=broad-except
+            ctx.violation(case, "a group member raised an undocumented error", f"{type(ex).__name__}: {ex}")
+        else:
+            ctx.count("limit_accepts_judged")
+            if k > lim:
+                ctx.violation(case, "a group member above the group's limit was accepted", f"k={k} limit={lim} ({case['how']})")
+        ctx.count("group_member_limits_judged")
+        ctx.judged(sig=("grouplimit", case["how"], lim, k - lim), nontrivial=True)
+
     elif kind == "badlimit":
         lim = case["L"]
         try:
@@ -450,6 +475,20 @@ def gen_cases(ctx):
             if mine():
                 yield {"k": "single", "v": _rand_base(rng), "w": _mask_with(rng, k, rng.randint(0, 6)),
                        "max_ncwb": 24, "via": "Wildcard", "expand_max": 20}
+    # wildcard masks that look like subnet masks (ones at the top): non-contiguous as wildcards, every octet-aligned one included
+    for mask, lim, emax in (("255.0.0.0", None, 12), ("255.255.0.0", None, 16), ("255.255.255.0", 24, 12), ("255.255.255.252", 30, 12),
+                            ("255.128.0.0", None, 12), ("128.0.0.0", None, 12), ("255.255.255.254", 31 if False else 30, 12),
+                            ("255.255.0.255", 24, 12), ("0.255.255.0", None, 16)):
+        for base in ("10.1.0.0", "10.1.2.3", "0.0.0.0"):
+            if mine():
+                w = bits.ip2int(mask)
+                yield {"k": "single", "v": bits.ip2int(base), "w": w, "max_ncwb": lim, "via": rng.choice(["Wildcard", "Address"]),
+                       "expand_max": emax}
+    for lim in (0, 2, 5, 15, 16, 18, 30):
+        for how in ("ctor-strings", "ctor-single-string", "items-setter"):
+            for dk in (0, 1):
+                if mine() and lim + dk <= 30:
+                    yield {"k": "grouplimit", "L": lim, "kk": lim + dk, "how": how}
     # fprefix / fsubnet
     for plen in range(33):
         for dirty in (False, True):
